@@ -67,7 +67,10 @@ func (s *sim) call(op string, f func()) (panicked bool) {
 			s.w.Violate(sig, fmt.Sprintf("%v", r))
 		}
 	}()
+	opName := op
+	s.w.WatchBegin(&opName)
 	f()
+	s.w.WatchEnd()
 	return false
 }
 
